@@ -9,7 +9,7 @@ def parseTurn (t : String) : Option (Sess × Act) :=
     match (String.ofList ds.reverse).toNat? with
     | some s =>
       if c = 'b' then some (s, .begin) else if c = 'r' then some (s, .read)
-      else if c = 'f' then some (s, .finish) else none
+      else if c = 'f' then some (s, .finish) else if c = 'x' then some (s, .crash) else none
     | none => none
   | [] => none
 
@@ -21,7 +21,7 @@ def handle (line : String) : String :=
   match words line with
   | ["run", lk, ts] =>
     match (if ts = "-" then some [] else (ts.splitOn ",").mapM parseTurn) with
-    | some sched => showLog (run ⟨lk = "1"⟩ sched).log
+    | some sched => showLog (run ⟨lk = "1", true⟩ sched).log
     | none => "bad-op"
   | _ => "bad-op"
 
